@@ -69,6 +69,11 @@ def process_item(item, *sketches, side=None, **kwargs):
         if isinstance(item["idx"], int) and item["idx"] % 2:
             raise IndexError  # no arguments
         raise ValueError(f"callback fails after updating the sketches with item {item['idx']}")
+    rt = item.get("ret_type")
+    if rt:
+        import numpy as np
+
+        return {"i64": np.int64, "u32": np.uint32, "u8": np.uint8, "i32": np.int32, "u64": np.uint64}[rt](item["ret"])
     return item["ret"]
 
 
